@@ -88,7 +88,7 @@ def initState (mc ms : List Machine) (sq : SimQueue) (args : Args) (orc : σ) : 
 /-- one iteration of the main loop up to (not including) recording and the stop tests:
     `none` = `pick_next` returned `None` -/
 def step (st : St σ) : Except SimFault (Option (StepRec × St σ)) := do
-  let (next, st) ← pickNext (pickMeasure st + 1) st
+  let (next, st) ← (pickNext (pickMeasure st + 1) st).getD (.error .fuel)
   match next with
   | none => pure none
   | some next =>
@@ -112,6 +112,17 @@ structure LoopOut (σ : Type) where
   stop : Stop
   final : Option (St σ)
 
+/-- the three stop tests at the end of an iteration, in the order of the code: `cnt` is
+    `trace.len()` after recording, `iters` the value of `sim_iterations` before its increment -/
+def stopCheck (args : Args) (st : St σ) (iters cnt : Nat) : Option Stop :=
+  if args.maxTraceLength > 0 && cnt ≥ args.maxTraceLength then some .maxTrace
+  else if args.maxSimIterations > 0 && iters + 1 ≥ args.maxSimIterations then some .maxIter
+  else if !args.continueAfterAllNormal && st.sq.noNormalPackets then some .noNormal
+  else none
+
+/-- `trace.len()` after the conditional push of the iteration's event -/
+def bump (args : Args) (r : StepRec) (cnt : Nat) : Nat := if args.keep r then cnt + 1 else cnt
+
 /-- the main `while let` loop; `iters` = `sim_iterations`, `cnt` = `trace.len()` -/
 def loop (args : Args) : Nat → St σ → Nat → Nat → LoopOut σ
   | 0, st, _, _ => ⟨[], .loopFuel, some st⟩
@@ -120,12 +131,10 @@ def loop (args : Args) : Nat → St σ → Nat → Nat → LoopOut σ
     | .error f => ⟨[], .fault f, none⟩
     | .ok none => ⟨[], .queueEmpty, some st⟩
     | .ok (some (r, st)) =>
-      let cnt := if args.keep r then cnt + 1 else cnt
-      if args.maxTraceLength > 0 && cnt ≥ args.maxTraceLength then ⟨[r], .maxTrace, some st⟩
-      else if args.maxSimIterations > 0 && iters + 1 ≥ args.maxSimIterations then ⟨[r], .maxIter, some st⟩
-      else if !args.continueAfterAllNormal && st.sq.noNormalPackets then ⟨[r], .noNormal, some st⟩
-      else
-        let o := loop args fuel st (iters + 1) cnt
+      match stopCheck args st iters (bump args r cnt) with
+      | some s => ⟨[r], s, some st⟩
+      | none =>
+        let o := loop args fuel st (iters + 1) (bump args r cnt)
         { o with stream := r :: o.stream }
 
 end
